@@ -97,6 +97,22 @@ TOOLS = {
     "zip": ("iter", lambda h: A.zip(h, [7, 8, 9]), lambda it: zip(it, [7, 8, 9])),
     "zip_rev": ("iter", lambda h: A.zip([7, 8], h), lambda it: zip([7, 8], it)),
     "zip_longest": ("iter", lambda h: A.zip_longest(h, [7]), lambda it: itertools.zip_longest(it, [7])),
+    # the handle as one of SEVERAL inputs, at every position: how far a tool reads each of its inputs before it
+    # stops (or raises) decides what the next user of the handle sees
+    "zip_strict_last": ("iter", lambda h: A.zip([7], [7, 8], h, strict=True), lambda it: zip([7], [7, 8], it, strict=True)),
+    "zip_strict_last0": ("iter", lambda h: A.zip([], [7], h, strict=True), lambda it: zip([], [7], it, strict=True)),
+    "zip_strict_mid": ("iter", lambda h: A.zip([7, 8], h, [7, 8], strict=True), lambda it: zip([7, 8], it, [7, 8], strict=True)),
+    "zip_strict_first": ("iter", lambda h: A.zip(h, [7], [7, 8], strict=True), lambda it: zip(it, [7], [7, 8], strict=True)),
+    "zip_strict_4": ("iter", lambda h: A.zip([7, 8], [7, 8, 9], [7, 8], h, strict=True),
+                     lambda it: zip([7, 8], [7, 8, 9], [7, 8], it, strict=True)),
+    "zip3_last": ("iter", lambda h: A.zip([7, 8], [7], h), lambda it: zip([7, 8], [7], it)),
+    "zip_twice": ("iter", lambda h: A.zip(h, h), lambda it: zip(it, it)),
+    "zip_longest3": ("iter", lambda h: A.zip_longest([7], h, [7, 8]), lambda it: itertools.zip_longest([7], it, [7, 8])),
+    "map2_last": ("iter", lambda h: A.map(lambda a, b: b, [7, 8], h), lambda it: map(lambda a, b: b, [7, 8], it)),
+    "map2_first": ("iter", lambda h: A.map(lambda a, b: a, h, [7, 8]), lambda it: map(lambda a, b: a, it, [7, 8])),
+    "chain_mid": ("iter", lambda h: A.chain([7], h, [8]), lambda it: itertools.chain([7], it, [8])),
+    "compress_sel": ("iter", lambda h: A.compress([7, 8], h), lambda it: itertools.compress([7, 8], it)),
+    "merge2": ("iter", lambda h: A.merge(h, [Item(1, "m")], key=lambda x: x.key), lambda it: heapq.merge(it, [Item(1, "m")], key=lambda x: x.key)),
     "chain": ("iter", lambda h: A.chain([7], h), lambda it: itertools.chain([7], it)),
     "accumulate": ("iter", lambda h: A.accumulate(h, initial=Item(0, "acc")),
                    lambda it: itertools.accumulate(it, initial=Item(0, "acc"))),
@@ -265,6 +281,8 @@ def run_history(case, stats, scoped=None):
                 return STOP
             except LookupError as exc:
                 return ("raised", type(exc).__name__, str(exc))
+            except ValueError as exc:  # zip(strict=True): lengths differ
+                return ("raised", type(exc).__name__, "")
 
         def model_view(h):
             if state[h] == "closed":
@@ -413,6 +431,8 @@ def run_history(case, stats, scoped=None):
                             want = STOP
                         except LookupError as exc:
                             want = ("raised", type(exc).__name__, str(exc))
+                        except ValueError as exc:
+                            want = ("raised", type(exc).__name__, "")
                         if got != want:
                             fail("borrow/tool-items", f"op {n} {op}: tool gave {got}, stdlib on the shared iterator {want}")
                             return
